@@ -83,7 +83,7 @@ def lie_members(B, op, seed, tier="quick"):
     nin = f.n_in()
     axs = alpha.axes(seed)
     ray_axes = [axs[2], axs[3], axs[6]] if tier != "thorough" else [axs[0], axs[1], axs[2], axs[3], axs[5], axs[6], axs[9]]
-    angle_grid = sorted(set(alpha.ANGLES_FULL + alpha.ANGLES_BEYOND))
+    angle_grid = sorted(set(alpha.ANGLES_FULL + alpha.ANGLES_BEYOND + [math.pi + 1e-6, math.pi + 1e-4, 2 * math.pi - 1e-6]))
     mag_grid = [0.0, 1e-9, 1e-6, 1e-3, 0.03, 0.3, 1.0, 3.0, 10.0, 100.0, 1e3]
 
     def base_parts(zero_vec=False):
@@ -130,6 +130,25 @@ def lie_members(B, op, seed, tier="quick"):
                         reps = alpha.rot_reps(kind, ax * (t + 2.1e-3)) or alpha.rot_reps(kind, ax * (t - 2.1e-3))
                     return reps[0][1]
                 rays.append((mk_for(k, setter), angle_grid))
+    # relation rays: the direction of a translational part swept from parallel to perpendicular to (and beyond) the rotation axis, and the
+    # direction of a second translational part swept relative to the first (nearly parallel / nearly proportional inputs)
+    phi_grid = [0.0, 1e-12, 1e-9, 1e-6, 1e-4, 1e-2, 0.3, 1.2, math.pi / 2, math.pi - 1e-2, math.pi - 1e-6, math.pi]
+    vec_slots = [k for k, sl in enumerate(layout) if sl[0] == "vec" and sl[1] == 3]
+    rot_slots = [k for k, sl in enumerate(layout) if sl[0] in ("rotvec", "rot")]
+    if vec_slots and rot_slots:
+        w_ax = axs[6]
+        n_ax = np.cross(w_ax, axs[3])
+        n_ax = n_ax / np.linalg.norm(n_ax)
+        for vk in vec_slots:
+            for mag in (2.5, 1e-3):
+                rays.append((mk_for(vk, lambda t, mag=mag: mag * (math.cos(t) * w_ax + math.sin(t) * n_ax)), phi_grid))
+    if len(vec_slots) >= 2:
+        v1 = alpha.generic_vec(seed + vec_slots[0], 3)
+        v1u = v1 / np.linalg.norm(v1)
+        n2 = np.cross(v1u, axs[5])
+        n2 = n2 / np.linalg.norm(n2)
+        for sc in (0.7, -3.0):
+            rays.append((mk_for(vec_slots[1], lambda t, sc=sc: sc * np.linalg.norm(v1) * (math.cos(t) * v1u + math.sin(t) * n2)), phi_grid))
     for mk, grid in rays:
         try:
             for lo, hi in walk(prog, mk, grid):
